@@ -254,6 +254,7 @@ func (c *Check) Execute(t Tier) int {
 	// classify: known finding vs violation
 	code := 0
 	seenKnown := map[string]bool{}
+	kfIDs := map[string]bool{}
 	nviol := 0
 	os.MkdirAll(filepath.Join(VerifDir(), "replays"), 0o755)
 	for _, v := range all {
@@ -261,8 +262,9 @@ func (c *Check) Execute(t Tier) int {
 		for _, k := range known {
 			if k.Matches(c.ID, v.Disc) {
 				matched = k.ID
-				if !seenKnown[k.ID] {
-					seenKnown[k.ID] = true
+				if !seenKnown[k.ID+k.WhatFails] {
+					seenKnown[k.ID+k.WhatFails] = true
+					kfIDs[k.ID] = true
 					fmt.Printf("KNOWN-FINDING: property=%s %s: %s\n", c.ID, k.ID, k.WhatFails)
 				}
 				break
@@ -281,7 +283,7 @@ func (c *Check) Execute(t Tier) int {
 		code = 1
 	}
 	var kf []string
-	for k := range seenKnown {
+	for k := range kfIDs {
 		kf = append(kf, k)
 	}
 	sort.Strings(kf)
